@@ -153,5 +153,223 @@ class ComputedSupport(Contract):
         return native('run_computed_support()')
 
 
+
+# ------------------------------------------------------------------------------------------------ _int_or_vec
+
+class ArrArg(Vec):
+    """a numpy array passed as the argument: not a numbers.Integral; `.nonzero()` of a bool array"""
+
+    def isinstance_(self, ctx, types):
+        if all(t in (int, float, bool, complex, str) for t in types):
+            return False
+        raise Unsupported('isinstance of an array against %r' % (types,))
+
+    def getattr(self, ctx, name):
+        if name == 'nonzero' and self.kind == 'bool':
+            return lambda ctx: (npsets.np_nonzero(ctx, self),)
+        return super().getattr(ctx, name)
+
+
+class Numbers:
+    def sym_getattr(self, ctx, name):
+        if name == 'Integral':
+            return ops.Builtin('int')
+        raise Unsupported('numbers.' + name)
+
+
+class Functools:
+    def sym_getattr(self, ctx, name):
+        if name == 'reduce':
+            def reduce(ctx, fn, seq):
+                if fn is not npsets.np_union1d:
+                    raise Unsupported('functools.reduce of %r' % (fn,))
+                S = ctx.c12_state
+                S.reduced = seq
+                return npsets.reduce_union1d(ctx, seq)
+            return reduce
+        raise Unsupported('functools.' + name)
+
+
+class Numeric:
+    """nutils.numeric: normdim is executed from its real source; isintarray / isboolarray are dtype tests."""
+
+    def sym_getattr(self, ctx, name):
+        if name == 'normdim':
+            from pyvc import extract
+            node = extract.get('numeric:normdim').node
+            return lambda ctx, n, i: ctx.interp.call_function(node, [n, i], {})
+        if name == 'isboolarray':
+            return lambda ctx, a: (isinstance(a, Vec) and a.kind == 'bool') or (isinstance(a, SObj) and a.attrs.get('kind') == 'bool')
+        if name == 'isintarray':
+            return lambda ctx, a: (isinstance(a, Vec) and a.kind == 'int') or (isinstance(a, SObj) and a.attrs.get('kind') == 'int')
+        raise Unsupported('numeric.' + name)
+
+
+def np_array(ctx, x, dtype=None):
+    if isinstance(x, list) and not x:
+        from pyvc.nparr import _kind_of_dtype
+        return Vec(_kind_of_dtype(ctx, dtype), z3.IntVal(0), lambda i: z3.IntVal(0), 'empty-array')
+    raise Unsupported('numpy.array(%r)' % (x,))
+
+
+class IntOrVec(Contract):
+    """function._int_or_vec: the dispatch behind get_support / get_dofs (see the module docstring)."""
+    prop = PROP
+    fn = 'function:_int_or_vec'
+
+    def __init__(self, scenario):
+        self.scenario = scenario
+        self.label = scenario
+        self.expect_return = scenario not in ('intarray2d', 'other')  # those must always raise IndexError
+
+    def setup(self, cx):
+        sc = self.scenario
+        nargs = cx.int('nargs')
+        cx.assume(nargs >= 0)
+        FLEN = z3.Function('len_f', I, I)
+        FV = z3.Function('f', I, I, I)
+        VAL = z3.Function('in_f', I, I, B)      # VAL(a, x)  <=>  x in f(a)
+        vw = z3.Function('in_f.position', I, I, I)
+        cx.assume(qforall(1, lambda a: FLEN(a) >= 0))
+        cx.assume(qforall(2, lambda a, k: z3.Implies(z3.And(0 <= k, k < FLEN(a)), VAL(a, FV(a, k)))))
+        cx.assume(qforall(2, lambda a, x: z3.Implies(VAL(a, x), z3.And(0 <= vw(a, x), vw(a, x) < FLEN(a), FV(a, vw(a, x)) == x))))
+        S = State(nargs=nargs, FLEN=FLEN, FV=FV, VAL=VAL, calls=[], reduced=None, sc=sc)
+        cx.c12_state = S
+        if sc.endswith('+sorted-f'):
+            cx.assume(qforall(3, lambda a, k1, k2: z3.Implies(z3.And(0 <= k1, k1 < k2, k2 < FLEN(a)), FV(a, k1) < FV(a, k2))))
+
+        def f(ctx, a):
+            if not is_intlike(a):
+                raise Unsupported('f(%r)' % (a,))
+            e = zint(a)
+            S.calls.append(e)
+            return Vec('int', FLEN(e), lambda k: FV(e, k), 'f(%s)' % e)
+        base = sc.split('+')[0]
+        if base == 'int':
+            a = cx.int('arg')
+            S.a = a
+            arg = SInt(a)
+        elif base == 'intarray':
+            v = Vec.fresh(cx, 'arg', 'int', probes=3)
+            arg = ArrArg('int', v.n, v._sel, 'arg')
+            S.arr = arg
+            SELp = z3.Function('is_entry', I, B)  # SELp(x) <=> x in arg  (Skolemised definition)
+            sw = z3.Function('is_entry.position', I, I)
+            cx.assume(qforall(1, lambda m: z3.Implies(z3.And(0 <= m, m < arg.n), SELp(arg.sel(m)))))
+            cx.assume(qforall(1, lambda x: z3.Implies(SELp(x), z3.And(0 <= sw(x), sw(x) < arg.n, arg.sel(sw(x)) == x))))
+            S.SEL = lambda x: SELp(x)
+        elif base == 'boolmask':
+            v = Vec.fresh(cx, 'arg', 'bool', probes=3)
+            arg = ArrArg('bool', v.n, v._sel, 'arg')
+            S.arr = arg
+            S.SEL = lambda x: z3.And(0 <= x, x < arg.n, arg.sel(x))
+        elif base == 'intarray2d':
+            arg = SObj('ndarray', attrs=dict(kind='int', ndim=2, shape=(SInt(cx.int('shape0')), SInt(cx.int('shape1')))))
+        else:
+            arg = SObj('str', attrs=dict(kind='other'))
+        S.args = (f, arg, 'dof', SInt(nargs), SInt(cx.int('nvals')))
+        S.globals = {'numbers': Numbers(), 'numeric': Numeric(), 'functools': Functools(), 'isint': lambda ctx, x: is_intlike(x),
+                     'numpy': Numpy(extra={'unique': npsets.np_unique, 'union1d': npsets.np_union1d, 'array': np_array})}
+        return S
+
+    def raises(self, cx, S, e):
+        if e.exc.split(':')[0] != 'IndexError':
+            return False
+        base, n = S.sc.split('+')[0], S.nargs
+        if base == 'int':
+            return z3.Not(z3.And(-n <= S.a, S.a < n))
+        if base == 'intarray':
+            return S.arr.exists(lambda k, x: z3.Or(x < 0, x >= n))
+        if base == 'boolmask':
+            return S.arr.n != n
+        return True
+
+    def ensures(self, cx, S, result):
+        base, n, FLEN, FV, VAL = S.sc.split('+')[0], S.nargs, S.FLEN, S.FV, S.VAL
+        if not (isinstance(result, Vec) and result.kind == 'int'):
+            raise Unsupported('returned %r' % (result,))
+        if base == 'int':
+            na = z3.If(S.a < 0, S.a + n, S.a)
+            return [('index-in-range', z3.And(-n <= S.a, S.a < n)),
+                    ('f-called-once-with-the-normalised-index', z3.And(len(S.calls) == 1, *[c == na for c in S.calls])),
+                    ('returns-f-of-the-normalised-index', z3.And(result.n == FLEN(na), qforall(1, lambda k: z3.Implies(z3.And(0 <= k, k < result.n), result.sel(k) == FV(na, k)))))]
+        if base in ('intarray2d', 'other'):
+            return [('must-raise-IndexError', z3.BoolVal(False))]
+        arr, SEL = S.arr, S.SEL
+        out = []
+        if base == 'intarray':
+            out.append(('entries-in-range', arr.forall(lambda k, x: z3.And(0 <= x, x < n))))
+        else:
+            out.append(('mask-has-one-entry-per-index', arr.n == n))
+        if S.reduced is not None:
+            seq = S.reduced
+            src = getattr(seq, 'src', None)
+            if not (isinstance(src, Vec) and src.kind == 'int'):
+                raise Unsupported('reduce over %r' % (seq,))
+            out.append(('f-only-called-with-indices-in-range', src.forall(lambda m, x: z3.And(0 <= x, x < n))))
+        out += [('result-items-come-from-f-of-a-selected-index', qforall(1, lambda j: z3.Implies(z3.And(0 <= j, j < result.n), qexists(1, lambda a: z3.And(SEL(a), VAL(a, result.sel(j))))))),
+                ('every-item-of-f-of-a-selected-index-is-in-the-result', qforall(2, lambda a, x: z3.Implies(z3.And(SEL(a), VAL(a, x)), qexists(1, lambda j: z3.And(0 <= j, j < result.n, result.sel(j) == x)))))]
+        inc = npsets.strictly_increasing(result)
+        if S.sc.endswith('+any-f'):
+            # what the code delivers for arbitrary f (the unconditional, documented clause is in the PARKED contracts)
+            two = qexists(2, lambda a, b: z3.And(a != b, SEL(a), SEL(b)))
+            out.append(('result-strictly-increasing-if-two-distinct-indices', z3.Implies(two, inc)))
+        else:
+            out.append(('result-strictly-increasing', inc))  # documented: "always unique, i.e. strict monotonic increasing"
+        return out
+
+    def replay(self, ob):
+        return native('run_int_or_vec(strict=%r)' % (not self.scenario.endswith('+any-f')))
+
+
+class Wrapper(Contract):
+    """_int_or_vec_dof / _int_or_vec_ielem: the decorated method is dispatched over the right index range
+    (dofs: nargs = self.ndofs; elements: nargs = self.nelems), bound to self, with the caller's argument."""
+    prop = PROP
+
+    def __init__(self, which):
+        self.which = which
+        self.fn = 'function:_int_or_vec_%s.wrapped' % which
+
+    def setup(self, cx):
+        nd, ne = cx.int('ndofs'), cx.int('nelems')
+        S = State(nd=nd, ne=ne, got=None)
+        me = SObj('Basis', attrs=dict(ndofs=SInt(nd), nelems=SInt(ne)))
+        arg = SOpaque('argument')
+        S.me, S.arg = me, arg
+        bound = SOpaque('bound-method')
+        S.bound = bound
+        f = SObj('function', methods={'__get__': lambda ctx, s, obj, *a: bound if obj is me else SOpaque('bound-to-something-else')})
+
+        def _int_or_vec(ctx, f, arg, argname, nargs, nvals):
+            S.got = (f, arg, nargs, nvals)
+            return SOpaque('result')
+        S.args = (me, arg)
+        S.globals = {'f': f, '_int_or_vec': _int_or_vec}
+        return S
+
+    def ensures(self, cx, S, result):
+        if S.got is None:
+            return [('dispatches-through-_int_or_vec', z3.BoolVal(False))]
+        f, arg, nargs, nvals = S.got
+        want_n, want_v = (S.nd, S.ne) if self.which == 'dof' else (S.ne, S.nd)
+        return [('dispatches-through-_int_or_vec', z3.BoolVal(True)),
+                ('method-bound-to-self', z3.BoolVal(f is S.bound)),
+                ('argument-passed-on', z3.BoolVal(arg is S.arg)),
+                ('index-range-is-the-number-of-%ss' % ('dof' if self.which == 'dof' else 'element'), z3.And(is_intlike(nargs), zint(nargs) == want_n) if is_intlike(nargs) else z3.BoolVal(False))]
+
+    def replay(self, ob):
+        return native('run_int_or_vec()')
+
+
+# PARKED (candidate defect, see notes/C12-basis.md): for an int-array / bool-mask argument with ONE distinct entry, _int_or_vec returns
+# f(entry) itself (functools.reduce does not call numpy.union1d for a single item), which for get_dofs is neither sorted nor
+# unique although the docstring promises "a unique array, i.e. a strict monotonic increasing array"; PrunedBasis.__init__ then builds
+# a dof map with repeated entries.  The documented clause fails on the unchanged tree, so these two contracts are kept here and
+# are NOT part of contracts(); the '+any-f' variants state what the code does deliver, the '+sorted-f' variants the get_support use.
+PARKED = [IntOrVec('intarray'), IntOrVec('boolmask')]
+
+
 def contracts():
-    return [ComputedSupport()]
+    return [ComputedSupport()] + [IntOrVec(s) for s in ('int', 'intarray+any-f', 'intarray+sorted-f', 'boolmask+any-f', 'boolmask+sorted-f', 'intarray2d', 'other')] \
+        + [Wrapper('dof'), Wrapper('ielem')]
